@@ -107,6 +107,9 @@ func (f *impFn) assigned(nodes ...ast.Node) []string {
 				if exprText(s.Fun) == "copy" && len(s.Args) > 0 {
 					set[rootOf(s.Args[0])] = true
 				}
+				if f.p.tg.digest {
+					f.digestAssigned(s, set)
+				}
 				if se, ok := s.Fun.(*ast.SelectorExpr); ok && (se.Sel.Name == "Write" || se.Sel.Name == "Reset") {
 					set[rootOf(se.X)] = true
 				}
@@ -288,6 +291,12 @@ func (f *impFn) lhsType(lhs ast.Expr, c *ictx) *ity {
 // a simple statement as `let` lines
 func (f *impFn) simple(s ast.Stmt, prev ast.Stmt, c *ictx) []string {
 	p := f.p
+	f.inLoopNow = c.inLoop
+	if p.tg.digest {
+		if lines, ok := f.digestSimple(s, c); ok {
+			return lines
+		}
+	}
 	switch v := s.(type) {
 	case *ast.AssignStmt:
 		if v.Tok != token.DEFINE && v.Tok != token.ASSIGN {
@@ -1128,7 +1137,15 @@ func (f *impFn) countingFuel(v *ast.ForStmt, c *ictx) string {
 		d, ok := s.(*ast.IncDecStmt)
 		return ok && ((d.Tok == token.INC && !down) || (d.Tok == token.DEC && down)) && exprText(d.X) == id.Name
 	}
-	if v.Post != nil && isInc(v.Post) {
+	if as, ok := v.Post.(*ast.AssignStmt); ok && f.p.tg.digest && !down && as.Tok == token.ADD_ASSIGN && len(as.Lhs) == 1 && exprText(as.Lhs[0]) == id.Name {
+		// `i += K`, K not assigned in the loop: N - i iterations suffice whenever K ≥ 1 (K ≤ 0: the Go loop does not terminate)
+		incs++
+		for _, a := range f.assigned(v.Body) {
+			for _, b := range f.freeVars(as.Rhs[0]) {
+				other = other || a == b
+			}
+		}
+	} else if v.Post != nil && isInc(v.Post) {
 		incs++
 	} else if v.Post != nil {
 		for _, a := range f.assigned(v.Post) {
@@ -1394,6 +1411,9 @@ func (f *impFn) checkFreshLocal(at ast.Node, x string) {
 			}
 			for _, r := range s.Rhs {
 				if strip(r) == x {
+					if f.p.tg.digest && !f.inLoopNow && s.Pos() > at.End() {
+						continue // handed on after its last in-place write (any later in-place write is checked against this alias again)
+					}
 					f.p.die(s, "%s is written in place and aliased here", x)
 				}
 			}
